@@ -351,6 +351,18 @@ func replaceEntities(b []byte, i int, entitiesMap map[string][]byte, revEntities
 			}
 		}
 
+		if 0 < len(r) && (r[0] >= '0' && r[0] <= '9' || r[0] >= 'a' && r[0] <= 'z' || r[0] >= 'A' && r[0] <= 'Z' || r[0] == '#' || r[0] == ';') {
+			// check that the replacement does not extend an unterminated entity in front of it, for example &#x&#x41; is not &#xA
+			// look back a limited distance, a longer run of such characters is left alone as well
+			k := i - 1
+			for 0 <= k && i-k <= MaxEntityLength && (b[k] >= '0' && b[k] <= '9' || b[k] >= 'a' && b[k] <= 'z' || b[k] >= 'A' && b[k] <= 'Z' || b[k] == '#') {
+				k--
+			}
+			if 0 <= k && (b[k] == '&' || b[k] >= '0' && b[k] <= '9' || b[k] >= 'a' && b[k] <= 'z' || b[k] >= 'A' && b[k] <= 'Z' || b[k] == '#') {
+				return b, j
+			}
+		}
+
 		copy(b[i:], r)
 		copy(b[i+len(r):], b[j+1:])
 		b = b[:len(b)-n+len(r)]
